@@ -3,6 +3,8 @@ package c08
 import (
 	"bufio"
 	"fmt"
+	"os"
+	"runtime"
 	"strconv"
 	"strings"
 	"sync/atomic"
@@ -69,6 +71,7 @@ type actorRunner struct {
 	terminated  atomic.Bool
 	termAsked   atomic.Bool
 	termEarly   atomic.Bool
+	idleDue     atomic.Bool  // some turn began >= idle-tick after the previous one ended
 	lastTurn    atomic.Int64 // unix nanos of the end of the last turn (handler or callback)
 	created     time.Time
 	idle, exp   int
@@ -88,8 +91,8 @@ func (a *actorSuiteRunner) Reset() {
 }
 
 func (a *actorSuiteRunner) Step(t []string) string {
-	if a.r == nil {
-		a.r = &actorRunner{}
+	if a.r == nil || (len(t) == 3 && t[0] == "spawn" && a.r.sys != nil) {
+		a.Reset() // a second `spawn` starts over, as in the model
 	}
 	return a.r.Step(t)
 }
@@ -110,11 +113,26 @@ func (r *actorRunner) shutdown() {
 	}
 }
 
+// turnBegins / turnEnds keep the evidence for the idle deadline: `:idle:` is re-armed at the end of
+// every turn and stopped at the beginning of the next one, so an idle timer can only have fired
+// legitimately if some turn began at least idle-tick after the previous one ended (or none began).
+func (r *actorRunner) turnBegins() {
+	if r.idle > 0 {
+		gap := time.Duration(time.Now().UnixNano()-r.lastTurn.Load()) * time.Nanosecond
+		if gap >= time.Duration(r.idle-tickMs-1)*time.Millisecond {
+			r.idleDue.Store(true)
+		}
+	}
+}
+
+func (r *actorRunner) turnEnds() { r.lastTurn.Store(time.Now().UnixNano()) }
+
 func (r *actorRunner) receive(ctx vivid.ActorContext) {
 	r.inHandler.Store(1)
 	r.plain++
+	r.turnBegins()
 	defer func() {
-		r.lastTurn.Store(time.Now().UnixNano())
+		r.turnEnds()
 		r.inHandler.Store(0)
 	}()
 	switch m := ctx.Message().(type) {
@@ -126,10 +144,10 @@ func (r *actorRunner) receive(ctx vivid.ActorContext) {
 		}
 	case *vivid.OnTerminate:
 		if !r.termAsked.Load() && r.incarnationStable() {
-			now := time.Now()
+			now := wallNow()
 			ok := false
 			slack := time.Duration(tickMs+1) * time.Millisecond
-			if r.idle > 0 && !now.Before(time.Unix(0, r.lastTurn.Load()).Add(time.Duration(r.idle)*time.Millisecond-slack)) {
+			if r.idle > 0 && r.idleDue.Load() {
 				ok = true
 			}
 			if r.exp > 0 && !now.Before(r.created.Add(time.Duration(r.exp)*time.Millisecond-slack)) {
@@ -170,11 +188,11 @@ func (r *actorRunner) handle(ctx vivid.ActorContext, m *cmd) {
 		switch m.kind {
 		case "after":
 			m.reg.inc = r.incarnation.Load()
-			m.reg.rBase = time.Now()
+			m.reg.rBase = wallNow()
 			ctx.AfterTask(sname, time.Duration(m.a)*time.Millisecond, r.callback(m.reg))
 		case "repeat":
 			m.reg.inc = r.incarnation.Load()
-			m.reg.rBase = time.Now()
+			m.reg.rBase = wallNow()
 			ctx.RepeatedTask(sname, time.Duration(m.a)*time.Millisecond, time.Duration(m.iv)*time.Millisecond, m.k, r.callback(m.reg))
 		case "stop":
 			ctx.StopTask(sname)
@@ -188,15 +206,19 @@ func (r *actorRunner) handle(ctx vivid.ActorContext, m *cmd) {
 
 func (r *actorRunner) callback(g *areg) func(ctx vivid.ActorContext) {
 	return func(ctx vivid.ActorContext) {
-		now := time.Now()
+		now := wallNow()
 		if r.inHandler.Load() != 0 {
 			g.overlap.Store(true)
 		}
 		r.plain++
+		r.turnBegins()
 		k := g.count.Add(1) - 1
 		due := g.rBase.Add(time.Duration(g.sim.after+int(k)*g.sim.interval) * time.Millisecond)
 		if now.Before(due.Add(-(tickMs + 1) * time.Millisecond)) {
 			g.early.Store(true)
+			if os.Getenv("C08_DEBUG") != "" {
+				fmt.Fprintf(os.Stderr, "early: task %d k=%d after=%d interval=%d now-due=%v\n", g.sim.id, k, g.sim.after, g.sim.interval, now.Sub(due))
+			}
 		}
 		if r.terminated.Load() {
 			g.afterTer.Store(true)
@@ -204,7 +226,7 @@ func (r *actorRunner) callback(g *areg) func(ctx vivid.ActorContext) {
 		if r.incarnation.Load() != g.inc {
 			g.stale.Store(true)
 		}
-		r.lastTurn.Store(time.Now().UnixNano())
+		r.turnEnds()
 	}
 }
 
@@ -216,7 +238,7 @@ func (r *actorRunner) spawn(idle, exp int) string {
 	r.idle, r.exp = idle, exp
 	r.sim = newAsim(idle, exp)
 	r.incarnation.Store(-1)
-	r.created = time.Now()
+	r.created = wallNow()
 	r.lastTurn.Store(r.created.UnixNano())
 	r.ref = r.sys.ActorOfF(func() vivid.Actor {
 		r.incarnation.Add(1)
@@ -253,17 +275,19 @@ func (r *actorRunner) settle() {
 	if d := time.Until(target); d > 0 {
 		time.Sleep(d)
 	}
-	deadline := time.Now().Add(settleCap)
-	for _, g := range r.regs {
-		want := int64(g.sim.turns)
-		for g.count.Load() < want && time.Now().Before(deadline) {
-			time.Sleep(300 * time.Microsecond)
+	n := len(r.regs)
+	res := waitCounts(n+1, func(i int) (int64, int64) {
+		if i < n {
+			return r.regs[i].count.Load(), int64(r.regs[i].sim.turns)
 		}
-	}
-	if !r.sim.live {
-		for !r.terminated.Load() && time.Now().Before(deadline) {
-			time.Sleep(300 * time.Microsecond)
+		// last: the termination the ideal run has seen
+		if !r.sim.live && !r.terminated.Load() {
+			return 0, 1
 		}
+		return 1, 1
+	})
+	if res == starved {
+		r.invalid = true
 	}
 }
 
@@ -292,12 +316,39 @@ func (r *actorRunner) decision(f func() string) string {
 func (r *actorRunner) send(m *cmd) string {
 	m.ack = make(chan string, 2)
 	r.sys.Tell(r.ref, m)
-	select {
-	case s := <-m.ack:
-		return s
-	case <-time.After(3 * time.Second):
-		return "noack"
+	var got string
+	res := pollUntil(3*time.Second, func() bool {
+		select {
+		case got = <-m.ack:
+			return true
+		default:
+			return r.terminated.Load()
+		}
+	})
+	if got != "" {
+		return got
 	}
+	if res == settled {
+		// the actor has terminated although the ideal run says it is alive: either the machine
+		// stalled for longer than the idle deadline / until the expiry (legitimate on the real
+		// clock: not determined), or the termination was early (reported as such)
+		select {
+		case got = <-m.ack:
+			return got
+		case <-time.After(50 * time.Millisecond):
+		}
+		r.invalid = true
+		if r.termEarly.Load() && !r.sim.conflict {
+			return "dead early"
+		}
+		return "-"
+	}
+	r.invalid = true
+	if res == starved {
+		return "-"
+	}
+	debugDump("noack")
+	return "noack"
 }
 
 func (r *actorRunner) flagsOf() (early, overlap, afterTer, stale bool) {
@@ -415,13 +466,13 @@ func (r *actorRunner) Step(t []string) string {
 			if !wasLive {
 				return "ok"
 			}
-			deadline := time.Now().Add(3*time.Second + time.Duration(d)*time.Millisecond)
-			for !r.terminated.Load() {
-				if time.Now().After(deadline) {
-					r.invalid = true
-					return "timeout"
-				}
-				time.Sleep(200 * time.Microsecond)
+			switch pollUntil(3*time.Second+time.Duration(d)*time.Millisecond, func() bool { return r.terminated.Load() }) {
+			case lost:
+				r.invalid = true
+				return "timeout"
+			case starved:
+				r.invalid = true
+				return "-"
 			}
 			return "ok"
 		})
@@ -447,13 +498,13 @@ func (r *actorRunner) Step(t []string) string {
 				r.invalid = true
 				return out
 			}
-			deadline := time.Now().Add(3*time.Second + time.Duration(d)*time.Millisecond)
-			for r.launched.Load() <= before {
-				if time.Now().After(deadline) {
-					r.invalid = true
-					return "timeout"
-				}
-				time.Sleep(200 * time.Microsecond)
+			switch pollUntil(3*time.Second+time.Duration(d)*time.Millisecond, func() bool { return r.launched.Load() > before }) {
+			case lost:
+				r.invalid = true
+				return "timeout"
+			case starved:
+				r.invalid = true
+				return "-"
 			}
 			r.restarting.Store(0)
 			return "ok"
@@ -531,6 +582,11 @@ func (r *actorRunner) Step(t []string) string {
 		case "late":
 			if afterTer {
 				return "after-terminated"
+			}
+			if r.special && os.Getenv("C08_DEBUG") != "" {
+				for i, g := range r.regs {
+					fmt.Fprintf(os.Stderr, "late=none: reg %d count=%d afterTer=%v terminated=%v\n", i, g.count.Load(), g.afterTer.Load(), r.terminated.Load())
+				}
 			}
 			return "none"
 		case "stale":
@@ -671,8 +727,8 @@ func actorSlowCases() [][]string {
 }
 
 func randomActorCase(rng *proto.RNG) []string {
-	afters := []int{70, 70, 170, 270, 0}
-	intervals := []int{100, 100, 200, 300}
+	afters := []int{70, 70, 170, 270, 0, 370}
+	intervals := []int{100, 100, 200, 300, 400}
 	waits := []int{100, 100, 200, 300}
 	for attempt := 0; attempt < 200; attempt++ {
 		idle, exp := 0, 0
@@ -689,7 +745,11 @@ func randomActorCase(rng *proto.RNG) []string {
 		good := true
 		for i := 0; i < n && good; i++ {
 			var op string
-			switch rng.Pick(3, 5, 3, 1, 6, 4, 1, 1, 1, 1) {
+			pick := rng.Pick(4, 8, 3, 1, 4, 3, 1, 1, 1, 1)
+			if i == 0 {
+				pick = rng.Intn(2) // a case starts with a registration
+			}
+			switch pick {
 			case 0:
 				op = fmt.Sprintf("after %d %d", rng.Intn(3), afters[rng.Intn(len(afters))])
 			case 1:
@@ -747,6 +807,9 @@ func randomActorCase(rng *proto.RNG) []string {
 }
 
 func actorGen(rng *proto.RNG, tier string, shard, nshards int, w *bufio.Writer) {
+	// the driver seeds shard k with seed*1000003+k, and SplitMix64 streams of consecutive seeds are
+	// the same stream shifted by one draw: re-seed from a mixed output so that shards are unrelated
+	rng = proto.NewRNG(rng.Next())
 	no := 0
 	budget := 45000
 	if tier == "thorough" {
@@ -777,4 +840,14 @@ func actorGen(rng *proto.RNG, tier string, shard, nshards int, w *bufio.Writer) 
 
 func init() {
 	proto.Register(&proto.Suite{Name: "actor-timers", Gen: actorGen, New: func() proto.Runner { return &actorSuiteRunner{} }})
+}
+
+// debugDump prints all goroutine stacks to stderr when C08_DEBUG is set (diagnosis of hangs only).
+func debugDump(what string) {
+	if os.Getenv("C08_DEBUG") == "" {
+		return
+	}
+	buf := make([]byte, 1<<20)
+	n := runtime.Stack(buf, true)
+	fmt.Fprintf(os.Stderr, "=== %s ===\n%s\n", what, buf[:n])
 }
